@@ -1,6 +1,7 @@
 """C16 — timestamps keep the instant and calendar fields they were given (claimed clauses R1-R4)."""
 import re
 from . import facts as F
+from .zone import zone_conversions
 from .c08 import find_impl_body
 from .c15 import CHRONO_OP, instant_difference, opkey
 
@@ -35,6 +36,18 @@ def receiver_term(x):
     return x == ('f', ('param', 1), '0') or x == ('param', 1)
 
 
+def fixtures(ffx, rep):
+    from .report import Collector, expect_fixture_hits
+    col = Collector()
+    for b in ffx.bodies.values():
+        if b.path.startswith('verif_fixtures::c16::'):
+            zone_conversions(b, col, 'R5')
+    expect_fixture_hits(rep, col, {'R5': ['zone-conversion/verif_fixtures::c16::parse_as_utc/parse<Utc>', 'zone-conversion/verif_fixtures::c16::parse_as_utc/fixed_offset', 'zone-conversion/verif_fixtures::c16::hours_in_utc/to_utc',
+                                          'zone-conversion/verif_fixtures::c16::rezoned/with_timezone', 'zone-conversion/verif_fixtures::c16::local_fields/naive_local']})
+    silent = [k for k in col.bad.get('R5', []) if 'good' in k]
+    rep.check(not silent, 'fixture', 'R5/silent-on-offset-keeping-parse', 'fixtures/', 'parse::<DateTime<FixedOffset>> accepted', 'rule fires on an offset-keeping parse: %s' % silent)
+
+
 def run(fx, rep):
     if 'chrono' not in fx.features('cel_interpreter'):
         rep.note('feature chrono disabled: timestamps do not exist in this configuration')
@@ -43,6 +56,12 @@ def run(fx, rep):
     rep.rule('R2', 'equality and ordering of timestamps compare instants')
     rep.rule('R3', 'timestamp arithmetic is checked')
     rep.rule('R4', 'timestamp() / string(timestamp) are RFC 3339 parse / print of the whole value')
+    rep.rule('R5', 'no zone conversion anywhere in the interpreter outside ser.rs (C17 covers ser.rs): the offset a timestamp was given is kept')
+    nz = 0
+    for zb in fx.bodies.values():
+        if zb.crate == 'cel_interpreter' and zb.raw['kind'] != 'Promoted' and not zb.is_derived() and not zb.loc().startswith('interpreter/src/ser.rs'):
+            nz += zone_conversions(zb, rep, 'R5')
+    rep.check(nz >= 1500, 'R5', 'call-sites-scanned', 'interpreter/src', '%d call sites scanned, none converts a zone' % nz, 'only %d call sites scanned (anchor lost)' % nz)
     dflt = [x for x in fx.bodies.values() if x.raw.get('impl_trait') == 'std::default::Default' and x.raw.get('impl_self', '').startswith(CTX) and x.raw['kind'] == 'AssocFn']
     if len(dflt) != 1:
         raise F.Lost('Context::default not found')
@@ -125,6 +144,17 @@ def run(fx, rep):
                     rep.ok('R3', 'Sub/instant-difference', F.loc_of(t['span']), 'timestamp - timestamp = instant difference (cannot overflow a TimeDelta)')
                 else:
                     rep.violation('R3', 'panicking-op/%s/%s' % (tr.rsplit('::', 1)[-1], opkey(t)), F.loc_of(t['span']), 'chrono operator %s panics on overflow' % rc)
+    sb_ = find_impl_body(fx, 'std::ops::Sub', VALUE)
+    diffs = [t for bi, t in sb_.calls() if (CHRONO_OP.match(F.resolved_callee(t) or '') and instant_difference(t)) or re.match(r'^chrono::DateTime::signed_duration_since$', F.norm_callee(t) or '')]
+    rep.check(len(diffs) >= 1, 'R3', 'Sub/timestamp-difference-exact', sb_.loc(), 'timestamp - timestamp is chrono\'s instant difference',
+              'impl Sub for Value has no chrono instant difference (DateTime - DateTime / signed_duration_since): t1 - t2 is computed some other way')
+    for tr in ('std::ops::Add', 'std::ops::Sub'):
+        b = find_impl_body(fx, tr, VALUE)
+        for bi, t in b.calls():
+            n = F.norm_callee(t) or ''
+            if re.match(r'^chrono::DateTime::(timestamp|timestamp_millis|timestamp_micros|timestamp_nanos|timestamp_nanos_opt|timestamp_subsec_\w+)$', n):
+                rep.violation('R3', 'epoch-count/%s/%s' % (tr.rsplit('::', 1)[-1], n.rsplit('::', 1)[-1]), F.loc_of(t['span']),
+                              'timestamp arithmetic goes through %s: an i64 epoch count covers only 1677..2262 in nanoseconds and drops sub-unit precision otherwise, so years 0001, 1600, 9999 give wrong differences' % n)
     # ---------------- R4
     ts_fn = reg.get('timestamp')
     if not ts_fn:
